@@ -38,6 +38,7 @@ Inductive dcmd :=
 | CMkTemp (t : N)                          (* mkstemp(dir=tmp_dir) returned name t (created empty, O_EXCL) *)
 | CWrite (t : N) (off : N) (chunk : bytes) (* aio_write(fd, piece, offset) on the temp file *)
 | CRename (t : N) (p : path)               (* os.rename(tmp, final): atomic replace *)
+| CClose (t : N)                           (* os.close(fd) of the temp file (finally clause of dump): no file-system-visible effect *)
 | CUnlink (p : path)                       (* os.remove(path), OSError swallowed by DiskOps *)
 | CRead (p : path)                         (* os.open(path) + aio_read until EOF: snapshot at open *)
 | CListdir.                                (* os.listdir(env_dir), names ending in .env *)
@@ -60,8 +61,9 @@ Fixpoint env_ids_raw (s : fs) : list N :=
   | (PEnv id, _) :: s' => id :: env_ids_raw s'
   | _ :: s' => env_ids_raw s'
   end.
-(* a directory listing names every file once *)
-Definition env_ids (s : fs) : list N := nodup N.eq_dec (env_ids_raw s).
+(* a directory listing names every file once; os.listdir order is unspecified,
+   the runs (and this model) take it in ascending id order *)
+Definition env_ids (s : fs) : list N := rev (sort_desc (nodup N.eq_dec (env_ids_raw s))).
 
 Definition dexec (s : fs) (c : dcmd) : fs * dans :=
   match c with
@@ -77,6 +79,7 @@ Definition dexec (s : fs) (c : dcmd) : fs * dans :=
       | Some d => (aset path_eqb (adel path_eqb s (PTmp t)) p d, AUnit)
       | None => (s, AErr)
       end
+  | CClose _ => (s, AUnit)
   | CUnlink p => (adel path_eqb s p, AUnit)
   | CRead p => (s, AData (fget s p))
   | CListdir => (s, AIds (env_ids s))
@@ -86,12 +89,32 @@ Definition dexec (s : fs) (c : dcmd) : fs * dans :=
 Definition dfp (c : dcmd) : option (path -> bool) :=
   match c with
   | CExists p | CUnlink p | CRead p => Some (path_eqb p)
-  | CMkTemp t | CWrite t _ _ => Some (path_eqb (PTmp t))
+  | CMkTemp t | CWrite t _ _ | CClose t => Some (path_eqb (PTmp t))
   | CRename t p => Some (fun q => path_eqb (PTmp t) q || path_eqb p q)
   | CListdir => None
   end.
 
 Definition dprog := prog dcmd dans res.
+
+(* Abort with unwinding: an exception (GreenletExit from a kill, an IOError out
+   of an aio_write) is raised INSTEAD of carrying out the next command of the
+   program; the except/finally clauses of the code then run.  In
+   slimta.diskstorage the only such clause with an effect is `finally:
+   os.close(fd)` of AioFile.dump, active between mkstemp and its own close. *)
+Definition cleanup_of (p : dprog) : list dcmd :=
+  match p with
+  | Do (CWrite t _ _) _ | Do (CRename t _) _ => [CClose t]
+  | _ => []
+  end.
+
+Definition run_cmds (s : fs) (cs : list dcmd) : fs := fold_left (fun s c => fst (dexec s c)) cs s.
+
+Definition th_cleanup (th : thread dcmd dans) : list dcmd :=
+  match th_cur th with Some (_, p) => cleanup_of p | None => [] end.
+
+(* every greenlet is killed (the process is being stopped): all cleanups run *)
+Definition abort_all (s : fs) (ths : list (thread dcmd dans)) : fs :=
+  run_cmds s (flat_map th_cleanup ths).
 
 Section DiskOps.
   (* pickle.dumps / pickle.loads of the two kinds of object the backend stores *)
@@ -109,10 +132,10 @@ Section DiskOps.
     let rest' := skipn chunk rest in
     Do (CWrite t off piece) (fun _ =>
       match piece with
-      | [] => Ret REmptyWrite            (* ret == 0: IOError; temp file stays behind *)
+      | [] => Do (CClose t) (fun _ => Ret REmptyWrite)   (* ret == 0: IOError; finally: close; temp file stays behind *)
       | _ :: _ =>
           match rest', fuel with
-          | [], _ => Do (CRename t p) (fun _ => k)
+          | [], _ => Do (CRename t p) (fun _ => Do (CClose t) (fun _ => k))     (* finally: os.close(fd) *)
           | _ :: _, S f => write_loop f t (off + N.of_nat (length piece)) rest' p k
           | _ :: _, O => Ret REmptyWrite (* unreachable: fuel = length rest *)
           end
